@@ -1080,3 +1080,17 @@ fn p1_page(page: Page<Size4KiB>, recursive_index: PageTableIndex) -> Page {
         page.p2_index(),
     )
 }
+
+/// Verification hook: the table pages the mapper computes for `page` (add-only, off by default).
+#[cfg(feature = "x86_64_verif")]
+#[doc(hidden)]
+pub fn verif_table_pages(
+    page: Page<Size4KiB>,
+    recursive_index: PageTableIndex,
+) -> (Page, Page, Page) {
+    (
+        p3_page(page, recursive_index),
+        p2_page(page, recursive_index),
+        p1_page(page, recursive_index),
+    )
+}
